@@ -333,6 +333,28 @@ def count_raise_sites():
     return n
 
 
+def suite_under_monitor(ctx):
+    """Thorough tier: the repository's own suite with the E4 monitor on."""
+    from vf import suite
+    res = suite.run_suite("c26")
+    if res is None:
+        ctx.inconclusive("suite-under-monitor run did not complete")
+        return
+    for k, v in res["events"].items():
+        ctx.count("suite:" + k, v)
+    ctx.extra["suite_summary"] = res["summary"]
+    for f in res["firings"]:
+        if f["property"] != "C26":
+            continue
+        ctx.violation({"kind": "suite:" + f["kind"],
+                       "mechanism": f.get("mechanism"),
+                       "what": "%s [%s]" % (f["what"], f["test"]),
+                       "test": f["test"],
+                       "dedupe": (f["kind"], f.get("op"),
+                                  f.get("transformation"),
+                                  f.get("mechanism"))})
+
+
 def main(ctx):
     ctx.rule = ("(class, node or sibling list, option dict) attempts, each on "
                 "a fresh tree: every concrete Transformation class x every "
@@ -366,6 +388,8 @@ def main(ctx):
     ctx.extra["distinct_refusal_sites_hit"] = len(sites)
     ctx.extra["raise_TransformationError_sites_in_source"] = total
     ctx.extra["refusal_sites_sample"] = sorted(sites)[:40]
+    if not ctx.quick:
+        suite_under_monitor(ctx)
     if ctx.counters.get("refused", 0) == 0:
         ctx.inconclusive("no transformation was refused")
     ctx.assumptions += [
